@@ -41,6 +41,13 @@ const (
 // comparisons off, so that a mutant has to be caught by wire behaviour alone.
 var c08BlackBox = os.Getenv("VERIF_C08_BLACKBOX") != ""
 
+// c08CollisionVerdict (VERIF_C08_COLLISION_VERDICT=1) additionally reports the outcome of the
+// connection collision itself (which connection survives) under c07:collision:both-opens-pending:*
+// keys, and VERIF_C08_ONLY_COLLISIONS=1 turns every case into a collision case: for a C07 unit
+// that wants the "both OPENs pending at opensent()'s select" schedule this file can produce.
+var c08CollisionVerdict = os.Getenv("VERIF_C08_COLLISION_VERDICT") != ""
+var c08OnlyCollisions = os.Getenv("VERIF_C08_ONLY_COLLISIONS") != ""
+
 // ---------------------------------------------------------------- speaker
 
 type c08Rx struct {
@@ -56,9 +63,14 @@ type c08Spk struct {
 	closed   bool
 	closedAt time.Time
 	wg       sync.WaitGroup
+	reading  bool
 }
 
 func (s *c08Spk) startReader() {
+	if s.reading {
+		return
+	}
+	s.reading = true
 	s.wg.Add(1)
 	go func() {
 		defer s.wg.Done()
@@ -267,6 +279,28 @@ type c08Case struct {
 	bulk   bool
 	failed bool
 	spk    *c08Spk // current connection (for witnesses)
+	// how the first session comes about: "passive" (the speaker connects, gobgp never dials),
+	// "active" (gobgp's own outgoing connection only), "collision" (both connections, both OPENs
+	// pending when opensent() selects), "collision-out-first" (outgoing connection completes while
+	// the incoming one is still waiting for the peer's OPEN)
+	mode   string
+	offer  chan net.Conn // connection handed to gobgp's next dial
+	dialed chan struct{}
+	oAlt   *c08Open // the OPEN sent on the incoming connection of a collision (o goes out on the dialled one)
+	extra  []*c08Spk
+}
+
+// c08BlockConn parks whoever closes it until the gate opens: offered as a surplus accepted
+// connection it holds the FSM goroutine inside opensent()'s `case conn := <-fsm.connCh` branch, so
+// that the peer's OPEN and the outgoing connection's result are both pending at the next select.
+type c08BlockConn struct {
+	*simConn
+	gate chan struct{}
+}
+
+func (b *c08BlockConn) Close() error {
+	<-b.gate
+	return b.simConn.Close()
 }
 
 func (cs *c08Case) logf(f string, a ...any) {
@@ -306,10 +340,10 @@ func (cs *c08Case) viol(o *c08Open, key, what string, extra map[string]any) {
 	cs.rec.Violation(key, what, cs.witness(o, extra))
 }
 
-func c08APIPeer(l *c08Local) *api.Peer {
+func c08APIPeer(l *c08Local, passive bool) *api.Peer {
 	p := &api.Peer{
 		Conf:      &api.PeerConf{NeighborAddress: c08Addr, PeerAsn: l.PeerAS, LocalAsn: l.LocalAS},
-		Transport: &api.Transport{PassiveMode: true},
+		Transport: &api.Transport{PassiveMode: passive},
 	}
 	tc := &api.TimersConfig{}
 	if l.HoldSet && l.Hold != 0 {
@@ -484,6 +518,156 @@ func (cs *c08Case) connect(o *c08Open) (*c08Hs, error) {
 	return nil, fmt.Errorf("gobgp never sent an OPEN in 60 connection attempts")
 }
 
+// connectActive brings the first session up through gobgp's own outgoing connection, alone or in a
+// connection collision (RFC 4271 s6.8) with a connection the speaker opens at the same time and on
+// which it sends ANOTHER OPEN (oIn). Returns the handshake state of the surviving connection and
+// the OPEN that went over it: that one is what the session must be negotiated from. A nil
+// handshake without error means no connection survived.
+func (cs *c08Case) connectActive(oOut, oIn *c08Open) (*c08Hs, *c08Open, error) {
+	rec, l := cs.rec, cs.l
+	readOpen := func(c net.Conn, what string) ([]byte, error) {
+		hd, body, err := simReadMsgRaw(c)
+		if err != nil {
+			return nil, fmt.Errorf("reading gobgp's OPEN on the %s connection: %w", what, err)
+		}
+		if hd.Type != bgp.BGP_MSG_OPEN {
+			return nil, fmt.Errorf("first message on the %s connection has type %d", what, hd.Type)
+		}
+		return append(mustSerializeHeader(hd), body...), nil
+	}
+	checkOpen := func(raw []byte, o *c08Open, what string) {
+		issues, _, _ := c08CheckOpen(l, raw)
+		for _, is := range issues {
+			cs.viol(o, is.Key, "OPEN sent by gobgp on the "+what+" connection does not reflect the configuration: "+is.What, map[string]any{"open_sent_hex": fmt.Sprintf("%x", raw)})
+		}
+		rec.Count("opens_checked", 1)
+	}
+	// gobgp dials (connect-retry jitter: some 1.5-2 s after the neighbour was added)
+	gOut, mineOut := simPipe(simLocalAddr, c08Addr, 179)
+	cs.offer <- gOut
+	select {
+	case <-cs.dialed:
+	case <-time.After(600 * time.Second):
+		mineOut.Close()
+		return nil, nil, fmt.Errorf("gobgp did not dial within 600 s")
+	}
+	out := &c08Spk{c: mineOut}
+	cs.extra = append(cs.extra, out)
+	sentOut, err := readOpen(mineOut, "dialled")
+	if err != nil {
+		return nil, nil, err
+	}
+	checkOpen(sentOut, oOut, "dialled")
+	rec.Count("conn_"+cs.mode, 1)
+	if cs.mode == "active" {
+		hs := &c08Hs{spk: out, sentOpen: sentOut, at: time.Now()}
+		out.writeAsync(oOut.bytes())
+		hd, body, err := simReadMsgRaw(mineOut)
+		switch {
+		case err != nil:
+		case hd.Type == bgp.BGP_MSG_KEEPALIVE:
+			hs.accepted = true
+		case hd.Type == bgp.BGP_MSG_NOTIFICATION && len(body) >= 2:
+			hs.notif = &c08Refusal{body[0], body[1]}
+		default:
+			return nil, nil, fmt.Errorf("unexpected message type %d after our OPEN on the dialled connection", hd.Type)
+		}
+		return hs, oOut, nil
+	}
+	// the speaker connects as well; gobgp answers with its OPEN and sits in OpenSent on that connection
+	gIn, mineIn := simPipe(simLocalAddr, c08Addr, 40001)
+	cs.n.acceptCh <- gIn
+	in := &c08Spk{c: mineIn}
+	cs.extra = append(cs.extra, in)
+	sentIn, err := readOpen(mineIn, "accepted")
+	if err != nil {
+		return nil, nil, err
+	}
+	checkOpen(sentIn, oIn, "accepted")
+	cs.logf("collision: OPEN on the accepted connection %s", oIn)
+	var gate chan struct{}
+	if cs.mode == "collision" {
+		// park the FSM goroutine, deliver both OPENs, let it go: both events are pending and
+		// opensent() takes either branch
+		gB, mineB := simPipe(simLocalAddr, c08Addr, 40002)
+		gate = make(chan struct{})
+		cs.n.acceptCh <- &c08BlockConn{simConn: gB.(*simConn), gate: gate}
+		defer mineB.Close()
+		synctest.Wait()
+		in.writeAsync(oIn.bytes())
+	}
+	out.writeAsync(oOut.bytes())
+	synctest.Wait()
+	at := time.Now()
+	if gate != nil {
+		close(gate)
+	}
+	in.startReader()
+	out.startReader()
+	synctest.Wait()
+	if cs.mode == "collision-out-first" {
+		// the outgoing connection has completed its OPEN exchange while the accepted one never got
+		// the peer's OPEN: the speaker gives the accepted one up
+		rxIn, closedIn, _ := in.snapshot()
+		if len(rxIn) == 0 && !closedIn {
+			rec.Count("collision_accepted_connection_left_open", 1)
+		}
+		mineIn.Close()
+		synctest.Wait()
+	}
+	alive := func(s *c08Spk) bool {
+		rx, closed, _ := s.snapshot()
+		if closed {
+			return false
+		}
+		for _, m := range rx {
+			if m.Type == bgp.BGP_MSG_KEEPALIVE {
+				return true
+			}
+		}
+		return false
+	}
+	aIn, aOut := alive(in), alive(out)
+	if cs.mode == "collision-out-first" {
+		aIn = false
+	}
+	lid, pid := netip.MustParseAddr(l.RouterID).As4(), oOut.ID
+	dominant := binary.BigEndian.Uint32(lid[:]) > binary.BigEndian.Uint32(pid[:])
+	cs.logf("collision resolved: accepted connection alive=%v, dialled connection alive=%v, gobgp has the higher BGP identifier: %v", aIn, aOut, dominant)
+	switch {
+	case aIn == aOut:
+		// both or none: connection collision resolution itself is C07's business, not this
+		// property's; counted, and reported under a c07 key only on request
+		rec.Count(fmt.Sprintf("collision_unresolved_in=%v_out=%v", aIn, aOut), 1)
+		if c08CollisionVerdict {
+			key := "c07:collision:both-opens-pending:no-surviving-connection"
+			if aIn {
+				key = "c07:collision:both-opens-pending:both-connections-open"
+			}
+			cs.viol(oOut, key, fmt.Sprintf("collision with both of the peer's OPENs pending when opensent() selects: accepted connection alive=%v, dialled connection alive=%v (gobgp has the higher BGP identifier: %v); RFC 4271 s6.8 keeps exactly one", aIn, aOut, dominant), nil)
+		}
+		return nil, nil, nil
+	case aOut:
+		rec.Count("collision_survivor_dialled", 1)
+		if !dominant && cs.mode == "collision" {
+			rec.Count("collision_survivor_not_rfc4271_6.8", 1)
+			if c08CollisionVerdict {
+				cs.viol(oOut, "c07:collision:both-opens-pending:established-on-loser", "the dialled connection survived although the peer has the higher BGP identifier (RFC 4271 s6.8)", nil)
+			}
+		}
+		return &c08Hs{spk: out, sentOpen: sentOut, accepted: true, at: at}, oOut, nil
+	default:
+		rec.Count("collision_survivor_accepted", 1)
+		if dominant {
+			rec.Count("collision_survivor_not_rfc4271_6.8", 1)
+			if c08CollisionVerdict {
+				cs.viol(oIn, "c07:collision:both-opens-pending:established-on-loser", "the accepted connection survived although gobgp has the higher BGP identifier (RFC 4271 s6.8)", nil)
+			}
+		}
+		return &c08Hs{spk: in, sentOpen: sentIn, accepted: true, at: at}, oIn, nil
+	}
+}
+
 // c08SimStart is simStart, plus gobgp's own log on stdout when VERIF_DEBUG is set.
 func c08SimStart(t *testing.T, g *api.Global) *simNet {
 	if !simDebug {
@@ -523,6 +707,36 @@ func c08SimCase(t *testing.T, rec *vlib.Rec, idx int) {
 	for _, f := range c08Fams {
 		cs.probe[f] = c08NewRoute(f, false)
 	}
+	// drawn from a stream of its own, so that the passive cases are what they were before
+	r2 := vlib.CaseRand("c08sim-conn", idx)
+	cs.mode = "passive"
+	switch k := r2.IntN(16); {
+	case k < 2:
+		cs.mode = "collision"
+	case k == 2:
+		cs.mode = "collision-out-first"
+	case k == 3:
+		cs.mode = "active"
+	}
+	if c08OnlyCollisions {
+		cs.mode = "collision"
+	}
+	if cs.mode != "passive" {
+		if l.PeerAS != 0 {
+			l.PeerAS = as // both OPENs of these scenarios are acceptable ones
+		}
+		cs.offer, cs.dialed = make(chan net.Conn, 1), make(chan struct{}, 1)
+		verifHookPtr.Store(&verifHooks{dial: func(ctx context.Context, addr string, port int) (net.Conn, bool) {
+			select {
+			case c := <-cs.offer:
+				cs.dialed <- struct{}{}
+				return c, true
+			default:
+				return nil, true // connection refused; gobgp retries after connect-retry
+			}
+		}})
+		defer verifHookPtr.Store(nil)
+	}
 	cs.n = c08SimStart(t, &api.Global{Asn: l.GlobalAS, RouterId: l.RouterID})
 	defer func() {
 		cs.n.stop()
@@ -532,7 +746,7 @@ func c08SimCase(t *testing.T, rec *vlib.Rec, idx int) {
 		rec.Inconclusive("c08: AddPath(local routes): " + err.Error())
 		return
 	}
-	if err := cs.n.s.AddPeer(context.Background(), &api.AddPeerRequest{Peer: c08APIPeer(l)}); err != nil {
+	if err := cs.n.s.AddPeer(context.Background(), &api.AddPeerRequest{Peer: c08APIPeer(l, cs.mode == "passive")}); err != nil {
 		rec.Inconclusive(fmt.Sprintf("c08: AddPeer(%s): %v", l, err))
 		return
 	}
@@ -564,6 +778,21 @@ func c08SimCase(t *testing.T, rec *vlib.Rec, idx int) {
 			}
 		}
 		o := c08GenOpen(r, l, as, as4)
+		cs.oAlt = nil
+		if s == 0 && cs.mode != "passive" {
+			// the same speaker (AS, BGP identifier) offers something else on its second connection
+			as4b := as4
+			if as <= 65535 && r2.IntN(2) == 0 {
+				as4b = !as4
+			}
+			cs.oAlt = c08GenOpen(r2, l, as, as4b)
+			cs.oAlt.ID = o.ID
+			for _, x := range []*c08Open{o, cs.oAlt} {
+				if x.Hold == 1 || x.Hold == 2 {
+					x.Hold = 3
+				}
+			}
+		}
 		if s > 0 {
 			// every timer gobgp armed so far started on a half-second grid and runs for whole
 			// seconds (idle hold, graceful-restart timer of the previous session): approach it off
@@ -596,8 +825,25 @@ func (cs *c08Case) session(sno int, o *c08Open, single bool) bool {
 	case k <= 2:
 		variant = "openconfirm-silent"
 	}
-	cs.logf("session %d variant=%s OPEN %s", sno, variant, o)
-	hs, err := cs.connect(o)
+	var hs *c08Hs
+	var err error
+	if cs.oAlt != nil {
+		variant = cs.mode
+		o.PadTo = 0
+		cs.logf("session %d variant=%s OPEN on the dialled connection %s", sno, variant, o)
+		defer func() {
+			for _, x := range cs.extra {
+				x.shutdown()
+			}
+			cs.extra = nil
+		}()
+		if hs, o, err = cs.connectActive(o, cs.oAlt); err == nil && hs == nil {
+			return true // no connection survived: nothing for this property to judge
+		}
+	} else {
+		cs.logf("session %d variant=%s OPEN %s", sno, variant, o)
+		hs, err = cs.connect(o)
+	}
 	if err != nil {
 		rec.Inconclusive("c08: " + err.Error())
 		return false
@@ -694,7 +940,9 @@ func (cs *c08Case) session(sno int, o *c08Open, single bool) bool {
 	} else if (lp.State.Type == api.PeerType_PEER_TYPE_INTERNAL) != res.Internal {
 		cs.viol(o, "c08:peertype:not-from-real-remote-as", fmt.Sprintf("ListPeer peer type %v, remote AS %d vs local AS %d", lp.State.Type, res.RemoteAS, l.effAS()), nil)
 	}
-	cs.checkRemoteCaps(o, lp)
+	if !c08BlackBox {
+		cs.checkRemoteCaps(o, lp)
+	}
 	if cs.failed {
 		return true
 	}
